@@ -93,3 +93,86 @@ def tiled_elementwise(ctx, name, specs, marks, small=None, small_marks=None):
                                                        small_marks=list(small_marks or ()),
                                                        functions_at_small_marks=sorted(l for l in specs if small and small(l)),
                                                        lengths="mark, mark+1, mark+period+1"))
+
+
+def harvested_sizes(modules=(), csources=(), lo=1000, hi=20000000):
+    """integer constants of the code under test that could be block / chunk / buffer sizes.
+
+    A change that processes long inputs in blocks brings its block size along as a literal (or a constant-folded
+    expression such as ``(64 << 20) // 96``).  The sizes explored for long inputs are therefore not only the universal
+    marks above but also every integer in [lo, hi] found (a) among the constants of the code objects of the given
+    Python modules (functions, methods, nested functions, comprehensions; the compiler has folded constant
+    expressions), (b) among their module-level integer globals and (c) as decimal / hex literals in the given C/C++
+    source files.  Returns a sorted list."""
+    import re
+    import types
+    found = set()
+
+    def walk(code):
+        for c in code.co_consts:
+            if isinstance(c, int) and not isinstance(c, bool) and lo <= c <= hi:
+                found.add(int(c))
+            elif isinstance(c, float) and c.is_integer() and lo <= c <= hi:
+                found.add(int(c))
+            elif isinstance(c, types.CodeType):
+                walk(c)
+            elif isinstance(c, tuple):
+                for t in c:
+                    if isinstance(t, int) and not isinstance(t, bool) and lo <= t <= hi:
+                        found.add(int(t))
+
+    for m in modules:
+        for k, v in vars(m).items():
+            if isinstance(v, (int, np.integer)) and not isinstance(v, bool) and lo <= int(v) <= hi:
+                found.add(int(v))
+            fn = getattr(v, "__func__", v)
+            if isinstance(fn, types.FunctionType) and fn.__module__ == m.__name__:
+                walk(fn.__code__)
+            elif isinstance(v, type) and getattr(v, "__module__", None) == m.__name__:
+                for a in vars(v).values():
+                    a = getattr(a, "__func__", a)
+                    if isinstance(a, property):
+                        a = a.fget
+                    if isinstance(a, types.FunctionType):
+                        walk(a.__code__)
+    for path in csources:
+        try:
+            text = open(path, errors="replace").read()
+        except OSError:
+            continue
+        text = re.sub(r"/\*.*?\*/", " ", text, flags=re.S)
+        text = re.sub(r"//[^\n]*", " ", text)
+        for tok in re.findall(r"(?<![\w.])(0[xX][0-9a-fA-F]+|\d{4,9})(?:[uUlL]*)(?![\w.])", text):
+            try:
+                v = int(tok, 16) if tok[:2].lower() == "0x" else int(tok)
+            except ValueError:
+                continue
+            if lo <= v <= hi:
+                found.add(v)
+    return sorted(found)
+
+
+def lengths_from_blocks(blocks, hi=20000000, cap=12):
+    """for each harvested block size B (at most ``cap`` of them, the largest first - block sizes are large): B-1, B, B+1,
+    2B, 2B+1 and 3B, as far as they stay below ``hi``"""
+    out = []
+    for b in sorted(blocks, reverse=True)[:cap]:
+        for n in (b - 1, b, b + 1, 2 * b, 2 * b + 1, 3 * b):
+            if 0 < n <= hi and n not in out:
+                out.append(n)
+    return out
+
+
+def harvest_lengths(modules=(), cdirs=(), hi=20000000, cap=12):
+    """lengths derived from the integer constants of the given Python modules and of the C/C++ sources (wrappers
+    generated by SWIG excluded) in the given sub-directories of the tree under test"""
+    import glob
+    import os
+    from mc import build
+    root = build.repo_root()
+    cs = []
+    for d in cdirs:
+        for pat in ("*.c", "*.cc", "*.cpp", "*.h", "*.hpp"):
+            cs += [f for f in glob.glob(os.path.join(root, "esutil", d, pat)) if "_wrap" not in os.path.basename(f)]
+    blocks = harvested_sizes(modules, cs, hi=hi)
+    return lengths_from_blocks(blocks, hi=hi, cap=cap), blocks
